@@ -169,6 +169,38 @@ func checkC15(tier string) {
 			}
 		}
 	}
+	// a second call of the same helper with a function whose parameter *names* are permuted
+	// (same types: one helper serves both calls), earlier or later in the source
+	for _, s := range sigs {
+		if s.naming != "named" || s.tpat == "distinct" {
+			continue
+		}
+		tk := strings.Join(s.ptypes, ",") + "->" + strings.Join(s.rtypes, ",")
+		t := s
+		t.pnames = append([]string(nil), s.pnames...)
+		t.pnames[0], t.pnames[1] = t.pnames[1], t.pnames[0]
+		last := s.ptypes[len(s.ptypes)-1]
+		for _, pl := range []struct{ plugin, key, main, other string }{
+			{"curry", "curry|" + tk, "func(f " + s.funcType() + ") interface{} { return deriveCurry_ID(f) }", "func other_ID(g " + t.funcType() + ") interface{} { return deriveCurry_ID(g) }"},
+			{"flip", "flip|" + tk, "func(f " + s.funcType() + ") interface{} { return deriveFlip_ID(f) }", "func other_ID(g " + t.funcType() + ") interface{} { return deriveFlip_ID(g) }"},
+			{"apply", "apply|" + tk, "func(f " + s.funcType() + ", l " + last + ") interface{} { return deriveApply_ID(f, l) }", "func other_ID(g " + t.funcType() + ", l " + last + ") interface{} { return deriveApply_ID(g, l) }"},
+			{"uncurry", "uncurry|" + tk, "func(f " + s.curriedType() + ") interface{} { return deriveUncurry_ID(f) }", "func other_ID(g " + t.curriedType() + ") interface{} { return deriveUncurry_ID(g) }"},
+		} {
+			for _, place := range []string{"earlier", "later"} {
+				n++
+				id := fmt.Sprintf("c%d", n)
+				c := &e1Case{ID: id, Zero: "(*int)(nil)", Key: pl.key,
+					Tags:  map[string]string{"plugin": pl.plugin, "naming": "named/second-call-with-permuted-names-" + place, "sig": s.funcType(), "tpat": s.tpat, "nres": nresClass(len(s.rtypes))},
+					Funcs: map[string]string{"fn": strings.ReplaceAll(pl.main, "ID", id)}}
+				if place == "earlier" {
+					c.Extra = strings.ReplaceAll(pl.other, "ID", id)
+				} else {
+					c.After = strings.ReplaceAll(pl.other, "ID", id)
+				}
+				cases = append(cases, c)
+			}
+		}
+	}
 	// Apply where the last parameter is an interface: earlier in the package the same helper
 	// name is also called with a concrete value / with nil (one helper must serve all calls)
 	for _, base := range [][]string{{"int"}, {"int", "string"}, {"string", "bool", "int"}} {
